@@ -141,6 +141,16 @@ pub fn run(ctx: &mut Ctx, prop: &str) {
                 other => ctx.oracle_fail("a rendering entry point disagrees with build()", serde_json::json!({"backend": b.name(), "entry": name, "recipe": recipe, "build": r.sql, "got": other.map(|x| x.0)})),
             }
         }
+        for (name, any) in [("build_collect_into", false), ("build_collect_any_into", true)] {
+            match catch(|| real.collect_into_values(b, any)) {
+                Some((t, v)) if t == r.sql && v.0 == r.values => {}
+                other => ctx.oracle_fail("a rendering entry point disagrees with build()", serde_json::json!({"backend": b.name(), "entry": name, "recipe": recipe, "build": r.sql, "got": other.map(|x| x.0)})),
+            }
+            match catch(|| real.collect_into_string(b, any, "/* p */ ")) {
+                Some(t) if t.strip_prefix("/* p */ ") == Some(r.inline.as_str()) => {}
+                other => ctx.oracle_fail("an inline rendering entry point disagrees with to_string()", serde_json::json!({"backend": b.name(), "entry": format!("{name}(String holding text)"), "recipe": recipe, "to_string": r.inline, "got": other})),
+            }
+        }
         for (name, any) in [("build_collect(String)", false), ("build_collect_any(String)", true)] {
             match catch(|| real.collect_string(b, any)) {
                 Some(t) if t == r.inline => {}
@@ -178,6 +188,24 @@ pub fn run(ctx: &mut Ctx, prop: &str) {
         }
         // ---- .. and that literal denotes the bound value under the engine's own lexical rules (text values; the reference lexers of C03)
         for (v, lit) in r.values.iter().zip(lits.iter()) {
+            // numbers: the literal reads back as exactly the bound number (and a binary float stays a float literal);
+            // date / time / uuid / network values: a quoted literal whose text is the harness's own component-wise rendering
+            match v {
+                sea_query::Value::Double(Some(x)) => { ctx.count("c02.numbers_read_back"); if lit.parse::<f64>().ok().map(|y| y.to_bits()) != Some(x.to_bits()) || !lit.contains(['.', 'e', 'E']) {
+                    ctx.oracle_fail("the literal written for a bound number does not read back as that number", serde_json::json!({"backend": b.name(), "value": format!("{x:?}"), "literal": lit})); } continue; }
+                sea_query::Value::Float(Some(x)) => { ctx.count("c02.numbers_read_back"); if lit.parse::<f32>().ok().map(|y| y.to_bits()) != Some(x.to_bits()) || !lit.contains(['.', 'e', 'E']) {
+                    ctx.oracle_fail("the literal written for a bound number does not read back as that number", serde_json::json!({"backend": b.name(), "value": format!("{x:?}"), "literal": lit})); } continue; }
+                sea_query::Value::Decimal(Some(x)) => { ctx.count("c02.numbers_read_back"); if lit.parse::<rust_decimal::Decimal>().ok().as_ref() != Some(&**x) {
+                    ctx.oracle_fail("the literal written for a bound number does not read back as that number", serde_json::json!({"backend": b.name(), "value": x.to_string(), "literal": lit})); } continue; }
+                sea_query::Value::BigDecimal(Some(x)) => { ctx.count("c02.numbers_read_back"); if lit.parse::<bigdecimal::BigDecimal>().ok().as_ref() != Some(&**x) {
+                    ctx.oracle_fail("the literal written for a bound number does not read back as that number", serde_json::json!({"backend": b.name(), "value": x.to_string(), "literal": lit})); } continue; }
+                _ => {}
+            }
+            if let Some(t) = crate::stmt::quoted_text(v) {
+                ctx.count("c02.quoted_literals");
+                if *lit != format!("'{t}'") { ctx.oracle_fail("the literal written for a bound date / time / uuid / network value is not the quoted canonical text of that value", serde_json::json!({"backend": b.name(), "expected": format!("'{t}'"), "literal": lit})); }
+                continue;
+            }
             let want = match v { sea_query::Value::String(Some(s)) => s.to_string(), sea_query::Value::Char(Some(c)) => c.to_string(), _ => continue };
             if want.contains('\0') { continue; }
             ctx.count("c02.literals_decoded");
